@@ -351,7 +351,38 @@ def m_ljust(ex, st, args, kwargs, node):
     return [(st, VUnk("str.ljust"))]
 
 
+SPLIT_ROOT = z3.Function("splitext_root", S, S)
+SPLIT_EXT = z3.Function("splitext_ext", S, S)
+
+
+def m_splitext(ex, st, args, kwargs, node):
+    """os.path.splitext(p) -> (root, ext): ASSUMED axioms: root + ext == p; ext is empty or starts with '.', has no
+    further '.', no '/'; a dot found this way is not the leading dot of the last component (root non-empty then)."""
+    if not (args and isinstance(args[0], VStr)):
+        return ex.havoc_call(st, "os.path.splitext", args, node)
+    p = args[0].t
+    e, r = SPLIT_EXT(p), SPLIT_ROOT(p)
+    st.assume(z3.And(z3.Concat(r, e) == p,
+                     z3.Or(e == sv(""), z3.And(z3.PrefixOf(sv("."), e), z3.Length(r) > 0)),
+                     z3.Not(z3.Contains(z3.SubString(e, 1, z3.Length(e)), sv("."))),
+                     z3.Not(z3.Contains(e, sv("/")))))
+    return [(st, VTuple([VStr(r), VStr(e)]))]
+
+
+STRIPS = z3.Function("strip_slashes", S, S)            # s.strip("/")
+
+
+def m_strip(ex, st, args, kwargs, node):
+    s0 = args[0]
+    if len(args) == 2 and isinstance(args[1], VStr) and args[1].const() == "/":
+        c = s0.const()
+        return [(st, VStr(c.strip("/")) if c is not None else VStr(STRIPS(s0.t)))]
+    return [(st, VStr(z3.String(fresh_name("strip"))))]
+
+
 def install_string_models(reg):
+    reg.ext_models["os.path.splitext"] = m_splitext
+    reg.ext_models["str.strip"] = m_strip
     reg.ext_models["str.lower"] = m_lower
     reg.ext_models["str.split"] = m_split
     reg.ext_models["str.ljust"] = m_ljust
@@ -378,6 +409,23 @@ def subst_v(v: V, i, j):
     if isinstance(v, VExt):
         return VExt(v.sort, z3.substitute(v.t, (i, j)))
     raise ops.Unsupported(f"element kind {v.kind} in symbolic comprehension")
+
+
+class VSymBag(V):
+    """Elements `elem(j)` for the indices j < length with keep(j): the value of a filtered list / generator / set
+    comprehension over a symbolic sequence.  Only membership, `any` and truthiness are defined on it."""
+    kind = "symbag"
+
+    def __init__(self, length, elem, keep, is_set=False):
+        self.length, self.elem, self.keep, self.is_set = length, elem, keep, is_set
+
+    def member(self, item: V):
+        j = z3.Int(fresh_name("m"))
+        return z3.Exists([j], z3.And(j >= 0, j < self.length, self.keep(j), ops.eq_term(self.elem(j), item)))
+
+    def nonempty(self):
+        j = z3.Int(fresh_name("m"))
+        return z3.Exists([j], z3.And(j >= 0, j < self.length, self.keep(j)))
 
 
 class CLoop(LoopSpec):
@@ -438,6 +486,11 @@ class C18Executor(Executor):
         return super().str_method(st, s, name, args, kwargs, node)
 
     def contains(self, st, container, item, node):
+        if isinstance(container, VSymBag):
+            return [(st, VBool(container.member(item)))]
+        if isinstance(container, VSeq) and isinstance(item, (VStr, VInt, VBool)):
+            j = z3.Int(fresh_name("m"))
+            return [(st, VBool(z3.Exists([j], z3.And(j >= 0, j < container.length, ops.eq_term(container.elem(j), item)))))]
         if isinstance(container, VExt) and container.sort == "Json" and isinstance(item, VStr):
             # `key in obj` on a parsed JSON object (callers test isinstance(obj, dict) first; TypeError otherwise)
             st2 = self.fork_raise(st, z3.Not(J_ISDICT(container.t)), "TypeError")
@@ -485,11 +538,26 @@ class C18Executor(Executor):
         self.unshaped_keys = tuple(unshaped_keys)
 
     def apply_contract(self, st, c, args, kwargs, node):
+        if c.target.endswith("::SharePointRestClient.list_files_filtered") and len(args) >= 2 and isinstance(args[1], VRef) \
+                and st.obj(args[1].ref).kind == "obj" and st.obj(args[1].ref).cls == "FileFilter":
+            return self.delegate_filtered(st, c, args, kwargs, node)
         self.applying = getattr(self, "applying", 0) + 1
         try:
             return super().apply_contract(st, c, args, kwargs, node)
         finally:
             self.applying -= 1
+
+    def delegate_filtered(self, st, c, args, kwargs, node):
+        """A convenience wrapper hands a FileFilter it built itself to list_files_filtered: the delegation is recorded
+        (filter fields as they are at the call, drive id) and the delegate's yielded sequence is an opaque value D;
+        list_files_filtered's own contract says what D is for that filter."""
+        fobj = st.obj(args[1].ref)
+        for k in FAMILY:
+            s2 = st.fork()
+            self.raise_in(s2, self.mk_exc(k))
+        d = z3.Const(fresh_name("delegated"), SQF)
+        st.ghost["delegations"] = st.ghost.get("delegations", ()) + ((dict(fobj.data), kwargs.get("drive_id", args[2] if len(args) > 2 else NONE), d, st.heap),)
+        return [(st, seq_value(d, "FileMeta"))]
 
     def call(self, st, f, args, kwargs, node):
         if isinstance(f, VExt) and f.sort == "Transport":
@@ -506,6 +574,8 @@ class C18Executor(Executor):
         return super().mk_exc(cls, **attrs)
 
     def truth(self, st, v):
+        if isinstance(v, VSymBag):
+            return VBool(v.nonempty())
         if isinstance(v, VExt) and v.sort == "Bytes":
             return VBool(BLEN(v.t) > 0)
         if isinstance(v, VExt) and v.sort == "Json":
@@ -633,29 +703,70 @@ class C18Executor(Executor):
         return outs
 
     # -- comprehensions over symbolic sequences ------------------------------
+    def sym_comp(self, n, elt, st):
+        """Comprehension `elt for x in SEQ [if c ...]` over a symbolic sequence -> (state, seq, elem(j), keep(j)) or None.
+        The element and the conditions must evaluate without forking or raising."""
+        if len(n.generators) != 1 or not isinstance(n.generators[0].target, ast_Name):
+            return None
+        g = n.generators[0]
+        its = self.ev(g.iter, st.fork())
+        if len(its) != 1 or not isinstance(its[0][1], VSeq):
+            return None
+        its = self.ev(g.iter, st)
+        s2, seq = its[0]
+        i = z3.Int(fresh_name("ci"))
+        from pyvc.state import Frame
+        fr = Frame({}, len(s2.frames) - 1, s2.frame.fnode)
+        s2.frames.append(fr)
+        mark = len(self.sinks[-1])
+        pclen = len(s2.pc)
+        s2.bind(g.target.id, seq.elem(i))
+        keep = []
+        for cnd in g.ifs:
+            rc = self.ev(cnd, s2)
+            if len(rc) != 1 or len(self.sinks[-1]) != mark or len(rc[0][0].pc) != pclen:
+                self.unsupported(n, "forking / raising condition in comprehension over a symbolic sequence")
+            s2 = rc[0][0]
+            keep.append(self.truth(s2, rc[0][1]).t)
+        res = self.ev(elt, s2)
+        if len(res) != 1 or len(self.sinks[-1]) != mark or len(res[0][0].pc) != pclen:
+            self.unsupported(n, "forking / raising element expression in comprehension over a symbolic sequence")
+        s3, val = res[0]
+        s3.frames.pop()
+        kc = z3.And(keep) if keep else None
+        return (s3, seq, (lambda j, val=val, i=i: subst_v(val, i, j)),
+                (lambda j, kc=kc, i=i: z3.BoolVal(True) if kc is None else z3.substitute(kc, (i, j))), val.kind, bool(keep))
+
     def e_GeneratorExp(self, n, st):
-        if len(n.generators) == 1 and not n.generators[0].ifs and isinstance(n.generators[0].target, ast_Name):
-            g = n.generators[0]
-            its = self.ev(g.iter, st)
-            if len(its) == 1 and isinstance(its[0][1], VSeq):
-                s2, seq = its[0]
-                i = z3.Int(fresh_name("ci"))
-                from pyvc.state import Frame
-                fr = Frame({}, len(s2.frames) - 1, s2.frame.fnode)
-                s2.frames.append(fr)
-                mark = len(self.sinks[-1])
-                pclen = len(s2.pc)
-                s2.bind(g.target.id, seq.elem(i))
-                res = self.ev(n.elt, s2)
-                if len(res) != 1 or len(self.sinks[-1]) != mark or len(res[0][0].pc) != pclen:
-                    self.unsupported(n, "forking / raising element expression in comprehension over a symbolic sequence")
-                s3, val = res[0]
-                s3.frames.pop()
-                return [(s3, VSeq(seq.length, lambda j, val=val, i=i: subst_v(val, i, j), val.kind))]
+        r = self.sym_comp(n, n.elt, st)
+        if r is not None:
+            s3, seq, elem, keep, kind, filtered = r
+            if not filtered:
+                return [(s3, VSeq(seq.length, elem, kind))]
+            return [(s3, VSymBag(seq.length, elem, keep))]
         return super().e_GeneratorExp(n, st)
+
+    def e_ListComp(self, n, st):
+        r = self.sym_comp(n, n.elt, st)
+        if r is not None:
+            s3, seq, elem, keep, kind, filtered = r
+            if not filtered:
+                return [(s3, VSeq(seq.length, elem, kind))]
+            return [(s3, VSymBag(seq.length, elem, keep))]
+        return super().e_ListComp(n, st)
+
+    def e_SetComp(self, n, st):
+        r = self.sym_comp(n, n.elt, st)
+        if r is not None:
+            s3, seq, elem, keep, kind, filtered = r
+            return [(s3, VSymBag(seq.length, elem, keep, is_set=True))]
+        return super().e_SetComp(n, st)
 
     def b_any(self, st, args, kwargs, node):
         v = args[0]
+        if isinstance(v, VSymBag):
+            j = z3.Int(fresh_name("j"))
+            return [(st, VBool(z3.Exists([j], z3.And(j >= 0, j < v.length, v.keep(j), self.truth(st, v.elem(j)).t))))]
         if isinstance(v, VSeq):
             j = z3.Int(fresh_name("j"))
             return [(st, VBool(z3.Exists([j], z3.And(j >= 0, j < v.length, self.truth(st, v.elem(j)).t))))]
@@ -674,6 +785,7 @@ def p_seq_str(fname):
     def mk(ex, st, name):
         n = z3.Int(f"{fname}.len")
         at = z3.Function(f"{fname}.at", I, S)
+        ex.__dict__.setdefault("witness_terms", {})[fname] = {"len": n, "first": [at(0), at(1), at(2)]}
         return [(n >= 0, VSeq(n, lambda i: VStr(at(i)), "str", tag=fname))]
     return Maker(mk, desc="list[str] of any length")
 
@@ -757,8 +869,58 @@ def parse_returns(c):
     return [(z3.Not(SEM_OK(s)), NONE), (SEM_OK(s), parsed(s))]
 
 
+# ---- which folders a filter searches (FileFilter.get_target_folders) ----------------------------------------
+P_FILTER_T = p_obj("FileFilter", {
+    "created_after": p_unk(), "created_before": p_unk(), "modified_after": p_unk(), "modified_before": p_unk(),
+    "folder_paths": p_seq_str("folder_paths"), "path_patterns": p_unk(), "extensions": p_unk()})
+
+
+def covers(t, p):
+    """Statement ("every matching file ... of the requested folders"): walking target t also lists the files of the
+    requested folder p iff p is t or lies below t -- compared component-wise, i.e. at a '/' boundary."""
+    a, b = STRIPS(p), STRIPS(t)
+    return z3.Or(a == b, b == sv(""), z3.PrefixOf(z3.Concat(b, sv("/")), a))
+
+
+def str_view(st, v):
+    """(length, elem(j) -> String term) of a list of strings of symbolic length."""
+    if isinstance(v, VSeq):
+        probe = v.elem(z3.Int("probe!view"))
+        if isinstance(probe, VStr):
+            return v.length, (lambda j: v.elem(j).t)
+    raise ops.Unsupported("result of get_target_folders is not a symbolic list of strings")
+
+
+def targets_clauses(c):
+    q = fields(c, "self")["folder_paths"]
+    nq, qa = q.length, (lambda j: q.elem(j).t)
+    nr, ra = str_view(c.st, c.result)
+    i, j, k = z3.Int(fresh_name("i!t")), z3.Int(fresh_name("j!t")), z3.Int(fresh_name("k!t"))
+
+    def rng(x, n):
+        return z3.And(x >= 0, x < n)
+    e1 = z3.ForAll([j], z3.Implies(rng(j, nr), z3.Exists([i], z3.And(rng(i, nq), ra(j) == qa(i)))))
+    e2 = z3.ForAll([i], z3.Implies(rng(i, nq), z3.Exists([j], z3.And(rng(j, nr), covers(ra(j), qa(i))))))
+
+    def disjoint(n, at):
+        return z3.ForAll([i, k], z3.Implies(z3.And(rng(i, n), rng(k, n), i != k), z3.Not(covers(at(i), at(k)))))
+    e3 = z3.Implies(disjoint(nq, qa), disjoint(nr, ra))
+    return e1, e2, e3
+
+
 def part_a(reg):
     out = []
+    out.append(FnContract(
+        target=f"{CLIENT}::FileFilter.get_target_folders",
+        params=[("self", P_FILTER_T)],
+        ensures=[("every-target-is-a-requested-folder-path", body_only(lambda c: targets_clauses(c)[0])),
+                 ("every-requested-folder-is-covered-by-a-target-(component-wise)", body_only(lambda c: targets_clauses(c)[1])),
+                 ("targets-do-not-overlap-when-the-requested-folders-do-not", body_only(lambda c: targets_clauses(c)[2]))],
+        raises=[],
+        note="the folders searched cover exactly the requested folder paths (no requested folder lost, nothing else added); "
+             "overlapping requests (a folder and one of its descendants) are listed twice by the listing: known finding "
+             "C18-overlapping-targets, excluded by the hypothesis of the third clause",
+    ))
     out.append(FnContract(
         target=f"{CLIENT}::SharePointFileMetadata.get_full_path",
         params=[("self", P_META)],
@@ -1783,6 +1945,52 @@ def part_c(reg):
         modifies=("self",),
     ))
 
+    # -- list_files_modified_since / list_files_created_since: thin wrappers ---------------------------------------------
+    def since_contract(meth, date_field):
+        others = [f for f in ("created_after", "created_before", "modified_after", "modified_before") if f != date_field]
+
+        def same_list(c, given, passed, heap):
+            """`given or []`: the caller's list when it is a non-empty list, else an empty list."""
+            if isinstance(passed, VSeq):
+                return z3.BoolVal(passed is given)
+            if isinstance(passed, VRef) and passed.ref in heap and heap[passed.ref].kind == "list" and heap[passed.ref].data == []:
+                return z3.BoolVal(True) if isinstance(given, VNoneT) else (given.length == 0 if isinstance(given, VSeq) else z3.BoolVal(False))
+            return z3.BoolVal(False)
+
+        def delegated(c):
+            ds = c.st.ghost.get("delegations", ())
+            if len(ds) != 1:
+                return z3.BoolVal(False)
+            flt, drive, d, heap = ds[0]
+            ok = [z3.BoolVal(flt[date_field] is c.args["since"])]
+            ok += [z3.BoolVal(isinstance(flt[f], VNoneT)) for f in others]
+            ok.append(same_list(c, c.args["folder_paths"], flt["folder_paths"], heap))
+            ok.append(same_list(c, c.args["extensions"], flt["extensions"], heap))
+            ok.append(same_list(c, NONE, flt["path_patterns"], heap))
+            ok.append(z3.BoolVal(drive is c.args["drive_id"] or (isinstance(drive, VNoneT) and isinstance(c.args["drive_id"], VNoneT))))
+            return z3.And(ok)
+
+        def yields_delegate(c):
+            ds = c.st.ghost.get("delegations", ())
+            if len(ds) != 1 or c.st.ghost.get("Y_unknown"):
+                return z3.BoolVal(False)
+            return ghost_y(c.st) == ds[0][2]
+
+        opt_list = lambda nm: with_default(p_opt(p_seq_str(nm)), NONE)  # noqa
+        return FnContract(
+            target=f"{CLIENT}::SharePointRestClient.{meth}",
+            params=[("self", CL), ("since", p_dt()), ("folder_paths", opt_list(f"{meth}.folder_paths")),
+                    ("extensions", opt_list(f"{meth}.extensions")), ("drive_id", P_DRIVE)],
+            generator=True,
+            ensures=[(f"delegates-once-with-a-filter-that-has-only-{date_field}=since-and-the-given-folders-and-extensions", body_only(delegated)),
+                     ("yields-exactly-what-list_files_filtered-yields-for-that-filter", body_only(yields_delegate))],
+            raises=[Raises(k, when=lambda c: z3.BoolVal(True)) for k in FAMILY],
+            modifies=("self",),
+            note="convenience wrapper: list_files_filtered(FileFilter(<date_field>=since, folder_paths, extensions), drive_id)",
+        )
+    out.append(since_contract("list_files_modified_since", "modified_after"))
+    out.append(since_contract("list_files_created_since", "created_after"))
+
     # -- list_all_files -------------------------------------------------------------------------------------------------
     def laf_walk(c_or_lc_self_data):
         sid = c_or_lc_self_data["_site_id"]
@@ -1943,6 +2151,28 @@ def caches_policy(repo, tier):
               any(ast.unparse(n.test) == t for n in ast.walk(fn) if isinstance(n, ast.If)) for (t, _b, _f) in checks))
         fns.append(dict(m.fn_info(f"{cls}.{meth}"), obligations=1))
     return {"obligations": obls, "functions": []}
+
+
+def known_findings(kf, violations, repo, tier):
+    """Recorded defects of C18: each witness is replayed natively; a finding that still reproduces prints KNOWN-FINDING.
+    The exclusion of C18-overlapping-targets is the hypothesis of the obligation it names, so it covers no violation."""
+    import json
+    import os
+    import subprocess
+    root = os.path.dirname(os.path.dirname(os.path.abspath(__file__)))
+    out = []
+    for f in kf:
+        req = {"property": "C18", "obligation": f["obligation"], "known_finding": f["id"], "witness": f.get("witness"), "repo": repo}
+        try:
+            p = subprocess.run(["/venv/bin/python", os.path.join(root, "replay", "run.py")], input=json.dumps(req), capture_output=True,
+                               text=True, timeout=300, cwd=root, env=dict(os.environ, VERIF_REPO=repo))
+            lines = [l for l in p.stdout.splitlines() if l.startswith("{")]
+            res = json.loads(lines[-1]) if lines else {}
+        except Exception as e:  # noqa
+            res = {"reproduced": False, "note": f"replay failed: {e}"}
+        out.append({"finding": f["id"], "still_fails": bool(res.get("reproduced")), "line": f"{f['id']}: {f['what']}", "covers": [],
+                    "exclusion": f.get("exclusion"), "witness_replay": str(res.get("observed") or res.get("note") or "")[:300]})
+    return out
 
 
 EXTRA = [caches_policy]
